@@ -1,6 +1,7 @@
 package main
 
 import (
+	"sort"
 	"fmt"
 	"strings"
 
@@ -268,6 +269,10 @@ func independence(c *ctx) {
 			{Kind: "AS", Names: []string{"color", "width"}, Scope: "G"}, {Kind: "AS", Names: []string{"color"}, Scope: "E", ScopeEl: []string{"p"}}},
 		{{Kind: "US", Names: []string{"ftp", "data"}}, {Kind: "DU"}, {Kind: "UC", Names: []string{"http"}, Cb: "never"}, {Kind: "USM", Re: bmx.NewRE(`^f`)}, {Kind: "RU", Flag: true}},
 		{{Kind: "UN", Flag: true}, {Kind: "AC"}, {Kind: "SP", Flag: true}, {Kind: "NF", Flag: false}, {Kind: "TB", Flag: true}, {Kind: "PU", Flag: false}, {Kind: "DA"}},
+		// the chained builder forms, as the first thing the other policy does
+		{{Kind: "AA", Names: []string{"href", "id"}, Empty: true, Scope: "E", ScopeEl: []string{"a", "font", "img", "x-foo", "span"}}},
+		{{Kind: "AA", Names: []string{"id"}, Empty: true, Scope: "M", ScopeRe: bmx.NewRE(`^(x-|a$|span$)`)}},
+		{{Kind: "AA", Names: []string{"id"}, Empty: true, Re: bmx.NewRE(`^[0-9]$`), Scope: "E", ScopeEl: []string{"a", "x-foo"}}, {Kind: "AS", Names: []string{"color"}, Enum: []string{"red"}, Scope: "E", ScopeEl: []string{"p"}}},
 	}
 	for ei, ext := range exts {
 		for ci, ctor := range ctors {
@@ -460,6 +465,7 @@ func directedC11(c *ctx) {
 
 // C12: crossorigin / sandbox values
 func directedC12(c *ctx) {
+	sandboxCases(c, c.san)
 	cos := []string{"anonymous", "use-credentials", "", "ANONYMOUS", "x"}
 	for mask := 0; mask < 64; mask++ {
 		var sb []string
@@ -1069,6 +1075,10 @@ func directedStaged(c *ctx) {
 	}
 	c.stat("staged_policies", n)
 	directedPatterns(c)
+	switch c.prop {
+	case "C03", "C04", "C07", "C13", "C17":
+		directedSchemes(c, c.san)
+	}
 }
 
 // directedOverlap: several builder calls that give rules to the same attribute (or style property) in
@@ -1175,4 +1185,102 @@ func directedOverlap(c *ctx) {
 		}
 	}
 	c.stat("overlap_policies", n)
+}
+
+
+// sandboxCases: policies with a sandbox list and iframe sandbox values that repeat a keyword in the
+// same and in different letter case, with other white space, and with unknown keywords in between.
+func sandboxCases(c *ctx, emit func(pid int, pol *bluemonday.Policy, in []byte)) {
+	vals := []string{"allow-forms Allow-Forms", "ALLOW-FORMS allow-forms allow-scripts", "allow-forms allow-forms", "Allow-Scripts x ALLOW-SCRIPTS", "allow-forms\tallow-forms\nallow-scripts",
+		"  allow-scripts  ", "allow-popups allow-forms", "x y", "", "allow-forms,allow-scripts", "allow-scripts allow-forms allow-scripts allow-forms", "allow-form allow-formss", "Allow-Forms"}
+	for v := 0; v < 4; v++ {
+		ops := []*bmx.Op{{Kind: "AE", Names: []string{"iframe", "b"}}, {Kind: "AA", Names: []string{"sandbox", "id"}, Scope: "E", ScopeEl: []string{"iframe"}}}
+		switch v {
+		case 0:
+			ops = append(ops, &bmx.Op{Kind: "SB", Names: []string{"allow-forms", "allow-scripts"}})
+		case 1:
+			ops = append(ops, &bmx.Op{Kind: "SB", Names: []string{"allow-forms"}})
+		case 2:
+			ops = append(ops, &bmx.Op{Kind: "SB", Names: nil})
+		}
+		pid, pol := c.policy(ops)
+		for _, sv := range vals {
+			emit(pid, pol, []byte("<iframe sandbox=\""+sv+"\"></iframe><iframe id=\"1\" sandbox=\""+sv+"\" sandbox=\"allow-forms\">t</iframe><b sandbox=\""+sv+"\">b</b>"))
+		}
+	}
+}
+
+// directedSchemes: the registrations of one URL scheme as a state machine — plainly, with a custom
+// check, through AllowDataURIImages, in another letter case — in every order of up to three calls.
+func directedSchemes(c *ctx, emit func(pid int, pol *bluemonday.Policy, in []byte)) {
+	mk := []func() *bmx.Op{
+		func() *bmx.Op { return &bmx.Op{Kind: "US", Names: []string{"data"}} },
+		func() *bmx.Op { return &bmx.Op{Kind: "US", Names: []string{"DATA", "https"}} },
+		func() *bmx.Op { return &bmx.Op{Kind: "DU"} },
+		func() *bmx.Op { return &bmx.Op{Kind: "UC", Names: []string{"data"}, Cb: "never"} },
+		func() *bmx.Op { return &bmx.Op{Kind: "UC", Names: []string{"data"}, Cb: "host=good.example"} },
+	}
+	docs := []string{"<img src=\"data:image/png;base64,iVBORw0KGgo=\">", "<img src=\"data:text/html;base64,PHNjcmlwdD4=\">", "<a href=\"data:text/html,x\">t</a>", "<a href=\"https://good.example/\">t</a>",
+		"<img src=\"data:image/gif;base64,R0lG ODlh\">", "<img src=\"DATA:image/png;base64,AAAA\">"}
+	var seqs [][]int
+	for a := range mk {
+		seqs = append(seqs, []int{a})
+		for b := range mk {
+			seqs = append(seqs, []int{a, b})
+			for d := range mk {
+				if (a+b+d)%2 == 0 {
+					seqs = append(seqs, []int{a, b, d})
+				}
+			}
+		}
+	}
+	for _, sq := range seqs {
+		ops := []*bmx.Op{{Kind: "AE", Names: []string{"img", "a"}}, {Kind: "AA", Names: []string{"src", "href"}, Scope: "G"}}
+		for _, k := range sq {
+			ops = append(ops, mk[k]())
+		}
+		pid, pol := c.policy(ops)
+		for _, d := range docs {
+			emit(pid, pol, []byte(d))
+		}
+		if c.prop == "C17" {
+			// a scheme registration reflects its most recent setting: a plain registration replaces what
+			// was there, custom checks registered after it are added (any one of them admits a URL, so
+			// their order and repetitions do not matter) and make the plain one moot
+			last := -1
+			for i, k := range sq {
+				if k <= 1 {
+					last = i
+				}
+			}
+			seen := map[int]bool{}
+			var customs []int
+			for _, k := range sq[last+1:] {
+				if !seen[k] {
+					seen[k] = true
+					customs = append(customs, k)
+				}
+			}
+			sort.Ints(customs)
+			canon := []*bmx.Op{{Kind: "AE", Names: []string{"img", "a"}}, {Kind: "AA", Names: []string{"src", "href"}, Scope: "G"}}
+			https := false
+			for _, k := range sq {
+				https = https || k == 1
+			}
+			if https {
+				canon = append(canon, &bmx.Op{Kind: "US", Names: []string{"https"}})
+			}
+			if len(customs) == 0 {
+				canon = append(canon, mk[0]())
+			}
+			for _, k := range customs {
+				canon = append(canon, mk[k]())
+			}
+			nid, npol := c.policy(canon)
+			for _, d := range docs {
+				fmt.Fprintf(c.w, "perm %d %d %s %s %s\n", pid, nid, bmx.HexField([]byte(d)), safeSanitize(pol, []byte(d)), safeSanitize(npol, []byte(d)))
+			}
+		}
+	}
+	c.stat("scheme_sequences", len(seqs))
 }
